@@ -1,6 +1,9 @@
 package rhp
 
 import (
+	"io"
+	"math"
+
 	"go.sia.tech/core/types"
 )
 
@@ -230,12 +233,25 @@ func (r *RPCReadResponse) DecodeFrom(d *types.Decoder) {
 	//
 	// NOTE: for maximum efficiency, we should be doing this for every slice,
 	// but in most cases the extra performance isn't worth the aliasing issues.
-	dataLen := int(d.ReadUint64())
-	if cap(r.Data) < dataLen {
+	//
+	// NOTE: the length prefix is untrusted, so a buffer is only allocated up
+	// front if it is known to fit; otherwise the data is read incrementally.
+	dataLen := d.ReadUint64()
+	switch {
+	case dataLen <= uint64(cap(r.Data)):
+		r.Data = r.Data[:dataLen]
+		d.Read(r.Data)
+	case dataLen <= SectorSize:
 		r.Data = make([]byte, dataLen)
+		d.Read(r.Data)
+	default:
+		data, err := io.ReadAll(io.LimitReader(d, int64(min(dataLen, math.MaxInt64))))
+		if err == nil && uint64(len(data)) != dataLen {
+			err = io.ErrUnexpectedEOF
+		}
+		d.SetErr(err)
+		r.Data = data
 	}
-	r.Data = r.Data[:dataLen]
-	d.Read(r.Data)
 
 	types.DecodeSlice(d, &r.MerkleProof)
 }
